@@ -117,7 +117,7 @@ def run(P, R, tier):
     R.assume('S1: Arrow ListArray buffers [v0,o0,...,data]; array.offset/len describe the level-0 window only; null slots of fixed-width arrays hold arbitrary bytes')
     R.assume('S2: coordinate index 2m is x_m, 2m+1 is y_m; S3: boxes are (x0, y0, x1, y1)')
     kernel_rules(P, R)
-    common.no_fastmath(P, R, 'C13.c', ['spatialpandas.geometry._algorithms.bounds'])
+    common.no_fastmath(P, R, 'C13.h', ['spatialpandas.geometry._algorithms.bounds'])
     common.nan_buffers(P, R, 'C13.g', ['spatialpandas.geometry._algorithms.bounds', 'spatialpandas.geometry.basefixed', 'spatialpandas.geometry.baselist', 'spatialpandas.geometry.base', 'spatialpandas.spatialindex.rtree'], floor=2)
     I = Interp(P)
     seen = set()
